@@ -19,16 +19,16 @@ import (
 
 // ---- solver ----
 type Solver struct {
-	cmd  *exec.Cmd
-	in   *bufio.Writer
-	out  *bufio.Scanner
-	N    int
-	Sat  int
-	Uns  int
-	Unk  int
-	T    time.Duration
-	name string
-	cvc5 bool
+	cmd    *exec.Cmd
+	in     *bufio.Writer
+	out    *bufio.Scanner
+	N      int
+	Sat    int
+	Uns    int
+	Unk    int
+	T      time.Duration
+	name   string
+	cvc5   bool
 	Broken bool
 }
 
@@ -247,33 +247,35 @@ func modelValueToGo(v string, sort string) string {
 
 // ---- records ----
 type Violation struct {
-	Harness  string            `json:"harness"`
-	AssertID string            `json:"assert_id"`
-	Kind     string            `json:"kind"` // assert | panic | unwind | deadlock
-	Msg      string            `json:"msg,omitempty"`
-	Trace    []int             `json:"trace"`
-	Choices  []int             `json:"choices"`
-	Sched    []int             `json:"sched,omitempty"`
-	Vars     map[string]string `json:"vars"`
-	Kinds    map[string]string `json:"kinds,omitempty"`
-	Events   []string          `json:"events,omitempty"`
-	Obs      []string          `json:"obs,omitempty"`
-	Known    string            `json:"known,omitempty"`
-	Stack    []string          `json:"stack,omitempty"`
-	UF       map[string]int    `json:"uf,omitempty"`
-	Shuffles []int             `json:"shuffles,omitempty"`
+	Harness   string            `json:"harness"`
+	AssertID  string            `json:"assert_id"`
+	Kind      string            `json:"kind"` // assert | panic | unwind | deadlock
+	Msg       string            `json:"msg,omitempty"`
+	Trace     []int             `json:"trace"`
+	Choices   []int             `json:"choices"`
+	Sched     []int             `json:"sched,omitempty"`
+	Vars      map[string]string `json:"vars"`
+	Kinds     map[string]string `json:"kinds,omitempty"`
+	Events    []string          `json:"events,omitempty"`
+	Obs       []string          `json:"obs,omitempty"`
+	Known     string            `json:"known,omitempty"`
+	Stack     []string          `json:"stack,omitempty"`
+	UF        map[string]int    `json:"uf,omitempty"`
+	Shuffles  []int             `json:"shuffles,omitempty"`
+	SchedFull []int             `json:"sched_full,omitempty"`
 }
 
 type Sample struct {
-	Trace   []int             `json:"trace"`
-	Choices []int             `json:"choices"`
-	Sched   []int             `json:"sched,omitempty"`
-	Vars    map[string]string `json:"vars"`
-	Obs     []string          `json:"obs"`
-	PCLen   int               `json:"pc_len"`
-	PC      []string          `json:"pc,omitempty"`
-	Events  []string          `json:"events,omitempty"`
-	UF      map[string]int    `json:"uf,omitempty"`
+	Trace     []int             `json:"trace"`
+	Choices   []int             `json:"choices"`
+	Sched     []int             `json:"sched,omitempty"`
+	Vars      map[string]string `json:"vars"`
+	Obs       []string          `json:"obs"`
+	PCLen     int               `json:"pc_len"`
+	PC        []string          `json:"pc,omitempty"`
+	Events    []string          `json:"events,omitempty"`
+	UF        map[string]int    `json:"uf,omitempty"`
+	SchedFull []int             `json:"sched_full,omitempty"`
 }
 
 type KnownFinding struct {
@@ -341,30 +343,31 @@ type obsItem struct {
 }
 
 type Explorer struct {
-	S        *Solver
-	Harness  string
-	prefix   []int
-	pos      int
-	trace    []int
-	Work     [][]int
-	decls    map[string]string
-	names    []string
-	declLine []string
-	pc       []string
-	choices  []int
-	sched    []int
-	shuffles []int
-	obs      []obsItem
-	events   []string
-	ufApps   []ufApp
-	violated bool
-	steps    int
-	St       Stats
-	Viol     []Violation
-	Samples  []Sample
-	Known    []KnownFinding
-	pcSeen   map[string]bool
-	retries  map[string]int
+	S         *Solver
+	Harness   string
+	prefix    []int
+	pos       int
+	trace     []int
+	Work      [][]int
+	decls     map[string]string
+	names     []string
+	declLine  []string
+	pc        []string
+	choices   []int
+	sched     []int
+	shuffles  []int
+	schedFull []int
+	obs       []obsItem
+	events    []string
+	ufApps    []ufApp
+	violated  bool
+	steps     int
+	St        Stats
+	Viol      []Violation
+	Samples   []Sample
+	Known     []KnownFinding
+	pcSeen    map[string]bool
+	retries   map[string]int
 
 	FeasMS     int
 	AssertMS   int
@@ -379,9 +382,9 @@ type Explorer struct {
 
 var X *Explorer
 
-type pathAbort struct{ why string }   // silently drop the path (assume false / infeasible)
-type engineLimit struct{ why string } // path is inconclusive
-type pathDone struct{}                // stop the path after a recorded violation
+type pathAbort struct{ why string }    // silently drop the path (assume false / infeasible)
+type engineLimit struct{ why string }  // path is inconclusive
+type pathDone struct{}                 // stop the path after a recorded violation
 type solverBroken struct{ why string } // the solver process lost sync: restart it and retry the path
 
 func NewExplorer(h string) *Explorer {
@@ -410,6 +413,7 @@ func (e *Explorer) begin(prefix []int) {
 	e.choices, e.sched, e.obs, e.events = nil, nil, nil, nil
 	e.ufApps = nil
 	e.shuffles = nil
+	e.schedFull = nil
 	e.violated = false
 	e.steps = 0
 	e.S.send("(push)")
@@ -451,6 +455,7 @@ func (e *Explorer) takeSample() {
 	}
 	s.Obs = e.evalObs()
 	s.UF = e.ufTable()
+	s.SchedFull = append([]int{}, e.schedFull...)
 	e.Samples = append(e.Samples, s)
 }
 
@@ -741,6 +746,7 @@ func (e *Explorer) fillViolation(v *Violation) {
 	v.Choices = append([]int{}, e.choices...)
 	v.Sched = append([]int{}, e.sched...)
 	v.Shuffles = append([]int{}, e.shuffles...)
+	v.SchedFull = append([]int{}, e.schedFull...)
 	v.Vars = e.modelVars()
 	v.Events = append([]string{}, e.events...)
 	v.Obs = e.evalObs()
@@ -1032,7 +1038,6 @@ func init() {
 	}
 }
 
-
 // portfolio re-runs a verdict query that the live solver could not decide as
 // a standalone script on cvc5 and z3 in parallel with the long limit.
 func (e *Explorer) portfolio(extra string) (string, map[string]string) {
@@ -1117,7 +1122,6 @@ func (e *Explorer) portfolio(extra string) (string, map[string]string) {
 	}
 	return "unknown", nil
 }
-
 
 func (e *Explorer) restartSolver() {
 	old := e.S
